@@ -28,13 +28,13 @@ func ringIndexRule(c *Ctx) *RuleResult {
 
 func init() {
 	properties["C01"] = propDef{run: func(c *Ctx) *PropertyRun {
-		return pr("other", "Decided: (R12b–e) the cached size of every tree moves only with the structure — replace-on-equal paths of Put touch neither counter nor links and report 'nothing added', decrements are guarded by 'found', increments travel with allocate-and-link; (R11) every child-link store has its parent-link twin; (R10) the red-black rotations and fix-up arms are mirror images; (R15) LinkedHashMap table and order list gain/lose a key on the same paths; (R16) BidiMap pairing; (R24) HashMap is the Go map; (R20) TreeMap delegates each operation to the same-named tree operation; (R13a) every comparator-driven descent (Put, Get, Remove, lookup of all three trees) branches on the comparator's full int result with one orientation — lookups and insertions take the same way down (a narrowed or re-oriented verdict in one of them loses keys). Not decided: that a lookup after an arbitrary history finds the last value — the correctness of the red-black / AVL / B-tree algorithms themselves (which case fires for which shape); a recolouring mistake that keeps links, counters and mirror arms consistent is not detected."+notBehaviour,
+		return pr("other", "Decided: (R12b–e) the cached size of every tree moves only with the structure — replace-on-equal paths of Put touch neither counter nor links and report 'nothing added', decrements are guarded by 'found', increments travel with allocate-and-link; (R11) every child-link store has its parent-link twin; (R10) the red-black rotations and fix-up arms are mirror images; (R15) LinkedHashMap table and order list gain/lose a key on the same paths; (R16) BidiMap pairing; (R24) HashMap is the Go map; (R20) TreeMap delegates each operation to the same-named tree operation; (R13a) every comparator-driven descent (Put, Get, Remove, lookup of all three trees) branches on the comparator's full int result with one orientation — lookups and insertions take the same way down (a narrowed or re-oriented verdict in one of them loses keys); (R32) the B-tree's hand-written slice surgery keeps its indices consistent: a shift by one opens a gap that is filled at that index after growing by one, or closes one before truncating by one, and a split partitions entries into [:k] / [k+1:] with entry k moving up and children divided at k+1. Not decided: that a lookup after an arbitrary history finds the last value — the correctness of the red-black / AVL / B-tree algorithms themselves (which case fires for which shape); a recolouring mistake that keeps links, counters and mirror arms consistent is not detected."+notBehaviour,
 			c.rule("R12", ruleR12), c.rule("R11", ruleR11),
 			prefixFilter(c.rule("R10", ruleR10), "R10", "MIRROR: red-black rotations, fix-up arms, Put/lookup arms; AVL GetNode/put/remove arms", 13, "R10:trees/redblacktree.Tree.rotate", "R10:trees/redblacktree.Tree.insertCase", "R10:trees/redblacktree.Tree.deleteCase", "R10:trees/redblacktree.Tree.replaceNode", "R10:trees/redblacktree.Node.sibling", "R10:trees/redblacktree.Tree.Put", "R10:trees/redblacktree.Tree.lookup", "R10:trees/avltree.Tree.GetNode", "R10:trees/avltree.Tree.put", "R10:trees/avltree.Tree.remove"),
 			prefixFilter(c.rule("R15", ruleR15), "R15", "LINKED: LinkedHashMap table ↔ order list", 5, "R15a:maps/linkedhashmap", "R15b:maps/linkedhashmap", "R15c:maps/linkedhashmap", "R15w:maps/linkedhashmap", "R15d:maps/linkedhashmap"),
 			c.rule("R16", ruleR16), prefixFilter(c.rule("R24", ruleR24), "R24", "HASH: HashMap is the Go map", 5, "R24:maps/hashmap"), rolesFor(c, "C01"),
 			prefixFilter(c.rule("R21b", ruleR21b), "R21b", "B-tree: rebalance is keyed by the node's own key", 1, "R21b:btree.rebalance-key"),
-			prefixFilter(c.rule("R13", ruleR13), "R13", "ORDER: comparator-driven descents use one orientation and the full verdict", 10, "R13a:"))
+			prefixFilter(c.rule("R13", ruleR13), "R13", "ORDER: comparator-driven descents use one orientation and the full verdict", 10, "R13a:"), c.rule("R32", ruleR32))
 	}}
 	properties["C02"] = propDef{run: func(c *Ctx) *PropertyRun {
 		return pr("other", "Decided: (R13a) all 10 comparator-driven descents relate probe and stored key with one orientation (less → left/low, greater → right/high, equal → found); (R13b) keys are never compared with Go operators in comparator-ordered packages; (R20) Min/Max/Floor/Ceiling/Values/Keys delegate to the matching tree operation; (R10) Floor↔Ceiling, Left↔Right, Min↔Max, iterator Next↔Prev, rotations and fix-up arms are mirror images under μ. Not decided: that rotations/splits/merges preserve the in-order sequence; sortedness of Keys() as such; B-tree per-node binary-search bounds; behaviour under a comparator that is not a strict weak order."+notBehaviour,
@@ -42,18 +42,19 @@ func init() {
 			prefixFilter(c.rule("R21b", ruleR21b), "R21b", "B-tree: rebalance is keyed by the node's own key", 1, "R21b:btree.rebalance-key"))
 	}}
 	properties["C03"] = propDef{run: func(c *Ctx) *PropertyRun {
-		return pr("other", "Decided: (R5a) every use of an index parameter of Get/Remove/Insert/Set/Swap on the three lists is dominated by withinRange(index)==true; (R5b) with an out-of-range index nothing is written except the documented append (a call to Add guarded by index == size); (R23w) withinRange ≡ 0 <= i < Size() on all three; (R7) an empty variadic list leaves no nil pointer to dereference; (R12b,c,e) the linked lists' size counters move only with allocate-and-link / guarded unlink; (R23s) Sort = SortFunc(Values(), comparator) then Clear; Add; (R23c) Contains(xs...) exactness; (R20) Append ≡ Add; (R30) the array list's length — its Size() — is replayed symbolically through every method: Add/Insert grow it by exactly len(values), Remove shrinks it by one, growBy(n) by n, resize(l, c) sets l, shrink/Sort/Swap/Set keep it, Clear zeroes it (reallocation thresholds cannot pad or truncate the sequence). Not decided: that pointer surgery in the linked Insert/Remove yields the spliced sequence; traversal-direction arithmetic; array-list grow/shrink thresholds; IndexOf results."+notBehaviour,
-			c.rule("R5", ruleR5), c.rule("R7", ruleR7), c.rule("R25", ruleR25), c.rule("R27", ruleR27), c.rule("R30", ruleR30),
+		return pr("other", "Decided: (R5a) every use of an index parameter of Get/Remove/Insert/Set/Swap on the three lists is dominated by withinRange(index)==true; (R5b) with an out-of-range index nothing is written except the documented append (a call to Add guarded by index == size); (R23w) withinRange ≡ 0 <= i < Size() on all three; (R7) an empty variadic list leaves no nil pointer to dereference; (R12b,c,e) the linked lists' size counters move only with allocate-and-link / guarded unlink; (R23s) Sort = SortFunc(Values(), comparator) then Clear; Add; (R23c) Contains(xs...) exactness; (R20) Append ≡ Add; (R30) the array list's length — its Size() — is replayed symbolically through every method: Add/Insert grow it by exactly len(values), Remove shrinks it by one, growBy(n) by n, resize(l, c) sets l, shrink/Sort/Swap/Set keep it, Clear zeroes it (reallocation thresholds cannot pad or truncate the sequence); (R33) every index-driven pointer walk of the linked lists keeps pos(pointer) = counter + d as a loop invariant (first ↦ 0, last ↦ size-1, next/prev ↦ ±1), walks from the head and from the tail land on the same positions relative to the index, and one pointer lands exactly on it. Not decided: that pointer surgery in the linked Insert/Remove yields the spliced sequence; traversal-direction arithmetic; array-list grow/shrink thresholds; IndexOf results."+notBehaviour,
+			c.rule("R5", ruleR5), c.rule("R7", ruleR7), c.rule("R25", ruleR25), c.rule("R27", ruleR27), c.rule("R30", ruleR30), c.rule("R33", ruleR33),
 			prefixFilter(c.rule("R12", ruleR12), "R12", "SIZE: linked-list counters", 6, "R12b:lists/", "R12c:lists/", "R12e:lists/"),
 			prefixFilter(c.rule("R23", ruleR23), "R23", "LISTS: Contains, Sort, withinRange of the three lists", 9, "R23c:lists/", "R23s:lists/", "R23w:lists/"),
 			rolesFor(c, "C03"))
 	}}
 	properties["C04"] = propDef{run: func(c *Ctx) *PropertyRun {
-		return pr("other", "Decided: (R15) LinkedHashSet's table and order list gain/lose a member on exactly the same paths, with the membership test inside the loop (a duplicate inside one Add call is covered); (R24) HashSet.Add/Remove are one Go-map assignment/delete per argument; (R20) TreeSet delegates Add→Put, Remove→Remove, Contains→Get, Size→Size, Values→Keys, Clear→Clear; (R23c) Contains(xs...) of all three sets advances only after a hit, returns false only after a miss and true only when all values were found (true for no arguments); (R12f) Empty/Size/Values length derive from one size term. Not decided: Go map semantics (trusted); TreeSet inherits C01's remainder."+notBehaviour,
+		return pr("other", "Decided: (R15) LinkedHashSet's table and order list gain/lose a member on exactly the same paths, with the membership test inside the loop (a duplicate inside one Add call is covered); (R24) HashSet.Add/Remove are one Go-map assignment/delete per argument; (R20) TreeSet delegates Add→Put, Remove→Remove, Contains→Get, Size→Size, Values→Keys, Clear→Clear; (R23c) Contains(xs...) of all three sets advances only after a hit, returns false only after a miss and true only when all values were found (true for no arguments); (R12f) Empty/Size/Values length derive from one size term; (R13b) TreeSet never orders or equates elements with Go operators (`<`, `==` call NaN equal to everything / unequal to itself) — only through the comparator, and its default comparator is cmp.Compare. Not decided: Go map semantics (trusted); TreeSet inherits C01's remainder."+notBehaviour,
 			prefixFilter(c.rule("R15", ruleR15), "R15", "LINKED: LinkedHashSet table ↔ order list", 5, "R15a:sets/linkedhashset", "R15b:sets/linkedhashset", "R15c:sets/linkedhashset", "R15w:sets/linkedhashset", "R15d:sets/linkedhashset"),
 			prefixFilter(c.rule("R24", ruleR24), "R24", "HASH: HashSet is the Go map", 2, "R24:sets/hashset"),
 			prefixFilter(c.rule("R23", ruleR23), "R23", "MEMBERSHIP: Contains(xs...) of the three sets", 3, "R23c:sets/"),
 			prefixFilter(c.rule("R12", ruleR12), "R12", "SIZE: Empty/Size/Values of the three sets", 6, "R12f:sets/"),
+			prefixFilter(c.rule("R13", ruleR13), "R13", "ORDER: TreeSet never compares elements with Go operators, only through the comparator", 1, "R13b:sets/treeset"),
 			rolesFor(c, "C04"))
 	}}
 	properties["C05"] = propDef{run: func(c *Ctx) *PropertyRun {
@@ -68,8 +69,8 @@ func init() {
 			c.rule("R22", ruleR22), rolesFor(c, "C06"))
 	}}
 	properties["C07"] = propDef{run: func(c *Ctx) *PropertyRun {
-		return pr("other", "Decided: (R11) parent links mirror child links — a sentence of the statement itself: every child-link store in the three trees is paired with the parent-link store on the same path; (R21) the rebalancing machinery is wired on every path: red-black Put/Remove pass insertCase1/deleteCase1, the case chains hand over without dropping out; AVL balance factors are written only by the fix/rotation family, direct link changes report 'height changed', every reported change is answered by putFix/removeFix on the frame's own link and passed up, rotations are stored back; B-tree nodes that gained an entry go to split, nodes that lost one go to rebalance (or are a lending sibling / the collapsing root), borrow and merge move children with entries. Not decided: every numeric claim — comparator-call bounds, height bounds, min/max occupancy, equal leaf depth, colour invariants; these quantify over reachable shapes and no sound static argument in reach bounds them."+notBehaviour,
-			c.rule("R21", ruleR21), c.rule("R21b", ruleR21b), c.rule("R11", ruleR11))
+		return pr("other", "Decided: (R11) parent links mirror child links — a sentence of the statement itself: every child-link store in the three trees is paired with the parent-link store on the same path; (R21) the rebalancing machinery is wired on every path: red-black Put/Remove pass insertCase1/deleteCase1, the case chains hand over without dropping out; AVL balance factors are written only by the fix/rotation family, direct link changes report 'height changed', every reported change is answered by putFix/removeFix on the frame's own link and passed up, rotations are stored back; B-tree nodes that gained an entry go to split, nodes that lost one go to rebalance (or are a lending sibling / the collapsing root), borrow and merge move children with entries; (R32) insert/delete shifts and the split partition keep their indices consistent (no entry or child lost or duplicated). Not decided: every numeric claim — comparator-call bounds, height bounds, min/max occupancy, equal leaf depth, colour invariants; these quantify over reachable shapes and no sound static argument in reach bounds them."+notBehaviour,
+			c.rule("R21", ruleR21), c.rule("R21b", ruleR21b), c.rule("R11", ruleR11), c.rule("R32", ruleR32))
 	}}
 	properties["C08"] = propDef{run: func(c *Ctx) *PropertyRun {
 		return pr("other", "Decided: (R14) all 18 iterator types follow the cursor protocol: index cursors step exactly when inside the bound and saturate at n / -1, report true exactly when the new index is in 0..n-1, Begin/End store -1/n, linked cursors keep the element pointer in step, wrappers forward, tree cursors start at leftmost/rightmost and saturate at their sentinels, First ≡ Begin;Next, Last ≡ End;Prev, NextTo/PrevTo are the canonical search loop over (Index|Key, Value); (R10) Next↔Prev, First↔Last, NextTo↔PrevTo mirror images; (R11) the Parent links tree cursors climb; (R1) Index/Key/Value write nothing, movers write only the iterator; (R19b-index) the ring iterator's Value() reads the slot (start+index) % capacity — the same slot Values() lists at that position. Not decided: that the element reached at position i is Values()[i] for the other containers; B-tree climb/descend index logic; heap level-sort."+notBehaviour,
@@ -79,12 +80,16 @@ func init() {
 			filter(c.rule("R1", ruleR1), "R1", "PURE: iterator methods write only the iterator", 150, func(o Obligation) bool { return strings.Contains(o.Key, "Iterator).") }))
 	}}
 	properties["C09"] = propDef{run: func(c *Ctx) *PropertyRun {
-		return pr("other", "Decided in full as a who-may-call / pairing property: (R15a) the order list is mutated only by Append under 'key not in table', Remove(IndexOf(key)) under 'key in table' together with delete(table,key), and Clear together with clearing the table — so an existing key is never moved and a re-inserted key goes last; (R15b) table and list change on exactly the same paths; (R15c) every enumerator (Keys, Values, iterator, Each…, String, ToJSON) walks the list and never ranges over the Go map; (R15w) the two fields are assigned only in constructors/Clear. Not decided: doublylinkedlist.Append/Remove/IndexOf themselves (C03's remainder)."+notBehaviour,
-			c.rule("R15", ruleR15))
+		return pr("other", "Decided in full as a who-may-call / pairing property: (R15a) the order list is mutated only by Append under 'key not in table', Remove(IndexOf(key)) under 'key in table' together with delete(table,key), and Clear together with clearing the table — so an existing key is never moved and a re-inserted key goes last; (R15b) table and list change on exactly the same paths; (R15c) every enumerator (Keys, Values, iterator, Each…, String, ToJSON) walks the list and never ranges over the Go map; (R15w) the two fields are assigned only in constructors/Clear; of the order list itself (a doubly linked list): (R33) its index walks keep pointer and counter in step and land on the requested index from either end, (R25) next/prev are stored in pairs. Not decided: the rest of doublylinkedlist.Append/Remove/IndexOf (C03's remainder)."+notBehaviour,
+			c.rule("R15", ruleR15),
+			prefixFilter(c.rule("R33", ruleR33), "R33", "WALK: the order list's index walks (Remove(IndexOf(key)) unlinks the element at that index)", 3, "R33:lists/doublylinkedlist"),
+			prefixFilter(c.rule("R25", ruleR25), "R25", "DLINK: the order list's next/prev links are stored in pairs", 3, "R25:lists/doublylinkedlist"))
 	}}
 	properties["C10"] = propDef{run: func(c *Ctx) *PropertyRun {
-		return pr("other", "Decided: (R16) for both BidiMaps, on every path of Put the pair held by the key is evicted from the inverse map by the looked-up value and the pair holding the value is evicted from the forward map by the looked-up key, exactly when the respective lookup found something, and both evictions precede both insertions (key→value forward, value→key inverse); Remove deletes both directions in one found-guarded region, the inverse one keyed by the looked-up value, and does nothing for an absent key; Clear clears both; Get/Size/Keys read the forward map, GetKey/Values the inverse map; (R8) their loaders insert through Put. Not decided: the underlying map/tree correctness (C01's remainder)."+notBehaviour,
+		return pr("other", "Decided: (R16) for both BidiMaps, on every path of Put the pair held by the key is evicted from the inverse map by the looked-up value and the pair holding the value is evicted from the forward map by the looked-up key, exactly when the respective lookup found something, and both evictions precede both insertions (key→value forward, value→key inverse); Remove deletes both directions in one found-guarded region, the inverse one keyed by the looked-up value, and does nothing for an absent key; Clear clears both; Get/Size/Keys read the forward map, GetKey/Values the inverse map; (R8) their loaders insert through Put; of the red-black tree that carries both directions of TreeBidiMap: (R11) every child-link store has its parent-link twin and (R10) the rotations are mirror images (a stale Parent makes Remove and enumeration disagree with Get/GetKey). Not decided: the rest of the underlying map/tree correctness (C01's remainder)."+notBehaviour,
 			c.rule("R16", ruleR16),
+			prefixFilter(c.rule("R11", ruleR11), "R11", "PARENTLINK: the red-black tree under both directions of TreeBidiMap", 10, "R11:trees/redblacktree"),
+			prefixFilter(c.rule("R10", ruleR10), "R10", "MIRROR: red-black rotations under TreeBidiMap", 1, "R10:trees/redblacktree.Tree.rotate"),
 			prefixFilter(c.rule("R8", ruleR8), "R8", "LOADER: BidiMap FromJSON inserts through Put", 10, "R8:maps/hashbidimap", "R8a:maps/hashbidimap", "R8b:maps/hashbidimap", "R8c:maps/hashbidimap", "R8d:maps/hashbidimap", "R8:maps/treebidimap", "R8a:maps/treebidimap", "R8b:maps/treebidimap", "R8c:maps/treebidimap", "R8d:maps/treebidimap"))
 	}}
 	properties["C11"] = propDef{run: func(c *Ctx) *PropertyRun {
